@@ -73,3 +73,68 @@ Print Assumptions C09_reducers.
 Print Assumptions C09_one_closes_now.
 Print Assumptions C09_one_refuted.
 Print Assumptions C09_step.
+
+(* ---- panic-freedom on the documented domain (proofs: theories/Iter/GapsPanic.v) ----
+   dom p: every Chunk size is >= 1 (Iter/Spec.v).  Nothing else is assumed: scripted sources may
+   fail transiently or fatally, callbacks may fail, contexts may be expired. *)
+From Juniper Require Import Iter.GapsPanic.
+
+(* no Next of any state of the domain panics; the domain is closed under Next *)
+Theorem C09_step_no_panic : forall live f,
+  (forall s o s' ev, sdom s -> snext f live s = (o, s', ev) -> sdom s' /\ o <> Pan) /\
+  (forall q o q' ev, sldom q -> slnext f live q = (o, q', ev) -> sldom q' /\ o <> Pan).
+Proof. exact snext_no_panic. Qed.
+
+(* every consumer program (any mix of Next with live/expired contexts and Close) runs to its
+   end on a pipeline of the domain: one observation per operation, none of them a panic *)
+Theorem C09_no_panic_dom : forall cfg p ops,
+  dom p ->
+  let run := run_stream_cfg cfg p (Steps ops) in
+  length (ro_steps run) = length ops /\ ~ In RPanic (map so_res (ro_steps run)).
+Proof. exact stream_steps_no_panic. Qed.
+
+(* the completion hypothesis of C09_steps_then_close holds on the whole domain *)
+Theorem C09_run_completes_dom : forall cfg p lives,
+  dom p ->
+  length (ro_steps (run_stream_cfg cfg p (Steps (map CNext lives ++ [CClose]))))
+  = S (length lives).
+Proof. exact stream_steps_complete_dom. Qed.
+
+(* C09_steps_then_close without the completion hypothesis *)
+Theorem C09_steps_then_close_dom : forall cfg p lives,
+  dom p -> NoDup (pipe_ids p) ->
+  let L := ro_log (run_stream_cfg cfg p (Steps (map CNext lives ++ [CClose]))) in
+  log_ok L /\
+  (forall id, In id (pipe_owned p) -> count_close id L = 1%nat) /\
+  (forall id, In id (tids L) -> count_close id L = 1%nat) /\
+  incl (tids L) (pipe_ids p).
+Proof. exact stream_close_steps_dom. Qed.
+
+(* C09_reducers has no completion hypothesis (its deferred Close also runs when the body
+   panics).  In addition: on the domain no reducer panics - Last for n >= 1, and for every n in
+   a configuration with the guard (the code of /repo now) *)
+Theorem C09_reducers_no_panic : forall cfg z r live,
+  dom_z z -> reducer_dom cfg r ->
+  map so_res (ro_steps (run_stream_cfg cfg (inl z) (Reduce r live))) <> [RPanic].
+Proof. exact stream_reduce_no_panic. Qed.
+
+(* non-vacuity: a run of a domain pipeline with a transient error, an expired context, a
+   failing callback and a fatal source error; outside the domain Chunk does panic *)
+Example C09_no_panic_demo :
+  dom no_panic_demo_pipe /\
+  map so_res (ro_steps (run_stream no_panic_demo_pipe
+                          (Steps [CNext true; CNext false; CNext true; CNext true;
+                                  CNext true; CNext true; CClose])))
+  = [RErr 9; RErr (-1); RItem (IL [1; 2]); RErr 8; RErr 7; RErr 7; RUnit].
+Proof. exact no_panic_demo. Qed.
+Example C09_panic_outside_dom :
+  map so_res (ro_steps (run_stream (inr (LChunk (-1) (ZSrc 0 (SSlice [1]))))
+                                   (Steps [CNext true; CNext true])))
+  = [RPanic].
+Proof. exact panic_outside_dom. Qed.
+
+Print Assumptions C09_step_no_panic.
+Print Assumptions C09_no_panic_dom.
+Print Assumptions C09_run_completes_dom.
+Print Assumptions C09_steps_then_close_dom.
+Print Assumptions C09_reducers_no_panic.
